@@ -5,7 +5,7 @@ use std::io::Read;
 
 fn le(b: &[u8]) -> u64 {
     let mut v = 0u64;
-    for (i, x) in b.iter().enumerate() {
+    for (i, x) in b.iter().enumerate().take(8) {
         v |= (*x as u64) << (8 * i);
     }
     v
@@ -44,10 +44,16 @@ pub fn decode(pack: &[u8]) -> Option<PackInfoDec> {
         let t = pack.get(tail_pos..)?;
         let comp = *t.first()?;
         let osz = *t.get(1)? as usize;
+        if osz == 0 || osz > 8 {
+            return None;
+        }
         let count = le(t.get(2..4)?) as usize;
         let raw = le(t.get(4..4 + osz)?) as usize;
         let data = le(t.get(4 + osz..4 + 2 * osz)?) as usize;
         let mut bounds = vec![0usize];
+        if count > 4096 {
+            return None;
+        }
         for k in 0..count.saturating_sub(1) {
             bounds.push(le(t.get(4 + 2 * osz + k * osz..4 + 2 * osz + (k + 1) * osz)?) as usize);
         }
@@ -83,6 +89,60 @@ pub fn decompress(comp: u8, payload: &[u8]) -> Result<Vec<u8>, String> {
         _ => return Err("unknown compression".into()),
     }
     Ok(out)
+}
+
+/// what jubako's background decoder *publishes* for a payload: it reads the decoder in chunks of
+/// 4 KiB (`take(4096).read_to_end`) and publishes the total after each successful chunk; a decoder
+/// error or an early end of stream stops it.  Returns (published bytes, ended normally).
+pub fn decompress_published(comp: u8, payload: &[u8], total: usize) -> (Vec<u8>, bool) {
+    fn pump<R: Read>(mut d: R, total: usize) -> (Vec<u8>, bool) {
+        let mut out: Vec<u8> = Vec::with_capacity(total);
+        while out.len() < total {
+            let size = std::cmp::min(total - out.len(), 4096);
+            let before = out.len();
+            match d.by_ref().take(size as u64).read_to_end(&mut out) {
+                Ok(0) => return (out, false),
+                Ok(_) => {}
+                Err(_) => {
+                    out.truncate(before);
+                    return (out, false);
+                }
+            }
+        }
+        (out, true)
+    }
+    match comp {
+        0 => (payload.to_vec(), true),
+        1 => match lz4::Decoder::new(payload) {
+            Ok(d) => pump(d, total),
+            Err(_) => (vec![], false),
+        },
+        2 => match xz2::stream::Stream::new_lzma_decoder(128 * 1024 * 1024) {
+            Ok(stream) => pump(xz2::read::XzDecoder::new_stream(payload, stream), total),
+            Err(_) => (vec![], false),
+        },
+        3 => match zstd::Decoder::new(payload) {
+            Ok(d) => pump(d, total),
+            Err(_) => (vec![], false),
+        },
+        _ => (vec![], false),
+    }
+}
+
+/// like `dump_clusters` but writes what the background decoder would publish (possibly partial)
+pub fn dump_clusters_published(pack: &[u8], dec: &PackInfoDec, dir: &std::path::Path) {
+    std::fs::create_dir_all(dir).unwrap();
+    for (i, c) in dec.clusters.iter().enumerate() {
+        if c.comp == 0 {
+            continue;
+        }
+        let payload = match pack.get(c.payload_start..c.payload_start.saturating_add(c.raw_size)) {
+            Some(p) => p,
+            None => continue,
+        };
+        let (plain, _ok) = decompress_published(c.comp, payload, c.data_size);
+        std::fs::write(dir.join(format!("cluster{}.dec", i)), plain).unwrap();
+    }
 }
 
 /// write `<dir>/cluster<i>.dec` for every compressed cluster; returns the plain data per cluster
